@@ -187,7 +187,7 @@ func checkC02(r *Run) {
 				}
 			}
 		}
-		for _, fa := range db.Fields {
+		for _, fa := range m.fields() {
 			if fa.Root == fi && fa.Sel.Pos() >= n.Pos() && fa.Sel.End() <= n.End() {
 				return fa.St
 			}
@@ -539,7 +539,7 @@ func checkC02(r *Run) {
 	// ---- r6: overrun flag ----
 	nw := 0
 	okOnlyTrue := true
-	for _, fa := range db.Fields {
+	for _, fa := range m.fields() {
 		if fa.Key == "p9.buffer.overflow" && fa.Write {
 			nw++
 			if as, ok := r.L.parent(fa.Sel).(*ast.AssignStmt); ok {
@@ -689,7 +689,7 @@ func c02ServerReaction(r *Run, m *ServerModel) {
 		case conn && !ex.St.Must["p9.connState.StartTag"]:
 			n++
 			okShut := false
-			for _, fa := range db.Fields {
+			for _, fa := range m.fields() {
 				if fa.Root == hr && fa.Write && fa.Key == "p9.connState.recvShutdown" {
 					okShut = true
 				}
